@@ -329,6 +329,10 @@ class AbstractOnlineSpecification(AbstractSpecification):
         return self.online_interpreter.final_update(dataset)
 
     def reset(self):
+        if self.set_ast_flag != True:
+            self.online_interpreter.set_ast(self.ast)
+            self.set_ast_flag = True
+
         self.online_interpreter.reset()
 
 
